@@ -57,7 +57,6 @@ fn c15_huff_read_bits() {
     kani::cover!(res.is_err() && len == 8 && pos == 33 && n == 5);
 }
 
-// vp: props=C15,C06; tag=C15.huff.decode.symbol; kind=complete; tier=quick
 // decode_next returns symbol c and advances by len(c)  <=>  the window starts with spec_code(c), c != EOS:
 //  * spec says Sym{c, l} (the code of c is complete in the window)  =>  Ok(Some(c)), new position = old + l,
 //    state normalised (bit < 8);
@@ -65,13 +64,13 @@ fn c15_huff_read_bits() {
 //  * a valid end (0..=7 one-bits left)  =>  Ok(None): valid strings are accepted;
 //  * never a panic, whatever the window holds.
 // Which *invalid* ends are rejected is the business of the c15_huff_eof_* harnesses.
-#[kani::proof]
-#[kani::unwind(18)]
-fn c15_huff_decode_next_symbol() {
+// The start positions 0..=7 are split over harnesses only to keep each below the quick-tier budget.
+fn decode_next_symbol_case(lo: usize, hi: usize) {
     let arr: [u8; WIN] = kani::any();
     let n: usize = kani::any();
     kani::assume(n <= WIN);
     let (mut pos, start) = any_state();
+    kani::assume(lo <= start && start <= hi);
     kani::assume(start <= 8 * n);
     let want = spec_huff_step(&arr[..n], start);
     let res = HPACK_STRING.decode_next(&mut pos, &arr[..n]);
@@ -91,12 +90,37 @@ fn c15_huff_decode_next_symbol() {
             }
         }
     }
-    kani::cover!(matches!(want, SpecHuffStep::Sym { len: 5, .. }) && start == 7);
-    kani::cover!(matches!(want, SpecHuffStep::Sym { len: 30, .. }) && start == 7);
+    kani::cover!(matches!(want, SpecHuffStep::Sym { len: 5, .. }) && start == hi);
+    kani::cover!(matches!(want, SpecHuffStep::Sym { len: 30, .. }) && start == hi);
     kani::cover!(matches!(want, SpecHuffStep::Sym { sym: 0, .. }));
     kani::cover!(matches!(want, SpecHuffStep::Eos));
-    kani::cover!(matches!(want, SpecHuffStep::End { pad_ok: true }) && n == 3 && start == 3);
+    kani::cover!(matches!(want, SpecHuffStep::End { pad_ok: true }) && n == 1 && start == lo);
     kani::cover!(matches!(want, SpecHuffStep::End { pad_ok: false }));
+}
+
+// vp: props=C15,C06; tag=C15.huff.decode.symbol; kind=complete; tier=quick
+#[kani::proof]
+#[kani::unwind(18)]
+fn c15_huff_decode_next_symbol_s01() {
+    decode_next_symbol_case(0, 1);
+}
+// vp: props=C15,C06; tag=C15.huff.decode.symbol; kind=complete; tier=quick
+#[kani::proof]
+#[kani::unwind(18)]
+fn c15_huff_decode_next_symbol_s23() {
+    decode_next_symbol_case(2, 3);
+}
+// vp: props=C15,C06; tag=C15.huff.decode.symbol; kind=complete; tier=quick
+#[kani::proof]
+#[kani::unwind(18)]
+fn c15_huff_decode_next_symbol_s45() {
+    decode_next_symbol_case(4, 5);
+}
+// vp: props=C15,C06; tag=C15.huff.decode.symbol; kind=complete; tier=quick
+#[kani::proof]
+#[kani::unwind(18)]
+fn c15_huff_decode_next_symbol_s67() {
+    decode_next_symbol_case(6, 7);
 }
 
 /// One step of the public iterator on `content`, starting from window state `pos`.
